@@ -1,7 +1,15 @@
 #!/bin/bash
-# reseed.sh Cxx : re-run ./check Cxx against current HEAD + seeded/Cxx/patch.diff
-pid=$1; wt=/var/tmp/reseed-$pid
-git -C /repo worktree add --detach $wt HEAD -q && cd $wt && git apply /verif/seeded/$pid/patch.diff || { echo "patch no longer applies"; git -C /repo worktree remove --force $wt; exit 2; }
-cd /verif && VERIF_REPO=$wt ./check $pid --tier quick 2>&1 | grep -v "^KNOWN" | tail -3
-rp=$(ls -t /verif/replays/$pid-*.json 2>/dev/null | head -1); [ -n "$rp" ] && cp $rp /verif/seeded/$pid/replay.json
+# reseed.sh Cxx [name] : re-run ./check Cxx against current HEAD + seeded/<name>/patch.diff and refresh its meta.json
+pid=$1; name=${2:-$1}; wt=/var/tmp/reseed-$name; out=/verif/seeded/$name
+git -C /repo worktree add --detach $wt HEAD -q && cd $wt && git apply $out/patch.diff || { echo "patch no longer applies"; git -C /repo worktree remove --force $wt; exit 2; }
+cd /verif && VERIF_REPO=$wt ./check $pid --tier quick > $out/check.log 2>&1; chk=$?
+grep -v "^KNOWN" $out/check.log | tail -3
+viol=$(grep -m1 '^VIOLATION' $out/check.log)
+rp=$(echo "$viol" | sed -n 's/.*replay=\([^ ]*\).*/\1/p'); [ -n "$rp" ] && cp "$rp" $out/replay.json 2>/dev/null
+python3 - <<PY
+import json
+p="$out/meta.json"; m=json.load(open(p))
+m.update({"check_exit":$chk,"check_line":"""$viol""","caught":bool($chk==1 and """$viol""".startswith("VIOLATION"))})
+json.dump(m,open(p,"w"),indent=1)
+PY
 git -C /repo worktree remove --force $wt
